@@ -28,7 +28,11 @@ where
     st.class_if(has_delay, "delay with k > 0 present");
     st.class_if(intish, "integer or unsigned frame type");
     let mut exp_pulls = Vec::new();
+    // exhaustion is C05's subject; it is also asserted here because a wrong report changes how many frames a consumer pulls
+    let len = model_len(&c.tree);
     for k in 0..c.pulls {
+        let (ex, exp_ex) = (sig.is_exhausted(), len.map_or(false, |l| k >= l));
+        ensure!(ex == exp_ex, "before frame {}: is_exhausted() = {}, but the shortest source (plus leading delays) ends after {:?} frames", k, ex, len);
         let got = sig.next();
         let exp = model::<F>(&c.tree, k);
         ensure!(
